@@ -300,7 +300,8 @@ pub fn rel_case(c: &RelCase, obs: &mut Obs) -> PResult {
     let mem = |m: &MI| -> Vec<f64> {
         let lo = m.lo();
         let hi = if m.hi() == POS_INF { EXT } else { m.hi() };
-        (lo..=hi).map(val).collect()
+        // (at the largest scale the members beyond the grid overflow: only finite members are probed)
+        (lo..=hi).map(val).filter(|v| v.is_finite()).collect()
     };
     let slack = |v: f64| 4.0 * f64::EPSILON * v.abs().max(1.0);
     for &x in &mem(&c.this) {
@@ -500,7 +501,7 @@ pub fn unsigned_case(c: &UnsignedCase, obs: &mut Obs) -> PResult {
 
 pub fn run(run: &mut Run) {
     run.technique = "bounded exhaustive enumeration over an integer box and dyadic floats; oracle = exact image of the denoted set (member-wise soundness, attained bounds, kind)".into();
-    run.rule = "all 63 intervals with bounds in [-4,4] x all scalars in [-4,4] for + - * / and negation, all ordered interval pairs for A+B / A-B, in i32, i64 (scaled), f64 (unit 0.5) and f32 (unit 0.25); the representable part of the same over u8 / u32 / usize with bounds 0..6; relative_to over non-negative intervals x strictly positive references on three dyadic grids and at three extreme scales (subnormal, smallest normal, 2^1000); relative_to on random non-dyadic f32/f64 bounds with self between 100 % and one ulp away from the reference, each bound compared with the exact rational (x-r)/r within 2 ulp; every case is non-trivial; distinct = (type, op, operands)".into();
+    run.rule = "all 63 intervals with bounds in [-4,4] x all scalars in [-4,4] for + - * / and negation, all ordered interval pairs for A+B / A-B, in i32, i64 (scaled), f64 (unit 0.5) and f32 (unit 0.25); the representable part of the same over u8 / u32 / usize with bounds 0..6; relative_to over non-negative intervals x strictly positive references on three dyadic grids and at four extreme scales (subnormal, smallest normal, 2^1000, and 2^1021 where the largest bounds exceed MAX/2); relative_to on random non-dyadic f32/f64 bounds with self between 100 % and one ulp away from the reference, each bound compared with the exact rational (x-r)/r within 2 ulp; every case is non-trivial; distinct = (type, op, operands)".into();
     let all = all_intervals(-B, B);
     for ty in ["i32", "i64", "f64", "f32"] {
         for op in ["add", "sub", "mul", "div", "neg"] {
@@ -549,7 +550,7 @@ pub fn run(run: &mut Run) {
     // relative_to
     let nonneg: Vec<MI> = all_intervals(0, 6).into_iter().filter(|m| m.kind != 2).collect();
     let pos: Vec<MI> = all_intervals(1, 6).into_iter().filter(|m| m.kind != 2).collect();
-    for (unit, scale_exp) in [(16, 0), (8, 0), (3, 0), (16, -1070), (16, 1000), (16, -1022)] {
+    for (unit, scale_exp) in [(16, 0), (8, 0), (3, 0), (16, -1070), (16, 1000), (16, -1022), (16, 1021)] {
         for r in &pos {
             for t in &nonneg {
                 run.case("relative_to", &RelCase { reference: *r, this: *t, unit_sixteenths: unit, scale_exp, neg_zero: false }, rel_case);
